@@ -289,6 +289,25 @@ func rewriteFile(path, rel string, stmtYield, quiet bool) ([]byte, bool) {
 					return true
 				})
 			}
+			// the same for comparison functions handed to sort / slices: how often they are called
+			// depends on the order of the input, which comes from a map iteration more often than not
+			if call, ok := n.(*ast.CallExpr); ok {
+				if sel, ok := call.Fun.(*ast.SelectorExpr); ok {
+					if id, ok := sel.X.(*ast.Ident); ok && (id.Name == "sort" || id.Name == "slices") {
+						for _, a := range call.Args {
+							if fl, ok := a.(*ast.FuncLit); ok {
+								ast.Inspect(fl.Body, func(m ast.Node) bool {
+									switch m.(type) {
+									case *ast.BlockStmt, *ast.CaseClause, *ast.CommClause:
+										inRange[m] = true
+									}
+									return true
+								})
+							}
+						}
+					}
+				}
+			}
 			return true
 		})
 		ast.Inspect(f, func(n ast.Node) bool {
